@@ -17,6 +17,7 @@
    a schedule).  `replay` is the strict variant used by trace validation: every (tid, event) of
    a trace observed on the real code must be enabled. *)
 From Coq Require Import List String Bool Arith.
+From SV Require Import Model.Glob.
 Import ListNotations.
 
 Definition chan := string.
@@ -28,10 +29,11 @@ Record config := mkConfig { atomic_create : bool; locked_ops : bool }.
 (* a message is identified by (publisher thread, per-publisher sequence number) *)
 Record msg := mkMsg { m_pub : tid; m_seq : nat; m_chan : chan }.
 
-(* fnmatch on the patterns the property speaks about: exact names and `prefix*` (incl. `*`) *)
-Inductive pat := PExact (s : string) | PPrefix (s : string).
+(* fnmatch: the two families the property names -- exact names and `prefix*` (incl. `*`) -- and any shell-style pattern
+   (Model/Glob.v: star, question mark, [seq], [!seq]); Proofs/Glob.v shows the first two are instances of the third *)
+Inductive pat := PExact (s : string) | PPrefix (s : string) | PGlob (s : string).
 Definition fnmatchb (c : chan) (p : pat) : bool :=
-  match p with PExact s => String.eqb c s | PPrefix s => String.prefix s c end.
+  match p with PExact s => String.eqb c s | PPrefix s => String.prefix s c | PGlob s => glob s c end.
 
 Inductive ppc :=
 | PLookup | PFactory | PStore (q : qid) | PMk (q : qid) | PAppend (q : qid) (m : msg).
